@@ -213,3 +213,75 @@ Proof.
   assert (Hm : mem t (map t_id (p_tasks (bp_prog bp))) = true) by (apply mem_In'; exact Ht).
   rewrite Hm. exact Hd.
 Qed.
+
+(* --- any number of workers killed, in any order (a node or the whole cluster going down) --- *)
+Definition is_crash {V} (e : ev V) : bool := match e with ECrash _ => true | _ => false end.
+Definition crashed_in {V} (tr : list (ev V)) (w : wid) : Prop := In (ECrash w) tr.
+
+Lemma crash_storm_dead_stays : forall (V : Type) (C : cfg V) (tr : list (ev V)) (s s' : st V) w,
+  forallb is_crash tr = true -> run C s tr = Some s' -> w_pc (ws s w) = PDead -> w_pc (ws s' w) = PDead.
+Proof.
+  intros V C tr. induction tr as [|e tr IH]; intros s s' w Hc Hr Hd; simpl in *.
+  - inversion Hr; subst. exact Hd.
+  - apply andb_true_iff in Hc. destruct Hc as [He Hc].
+    destruct (step C s e) as [s1|] eqn:Hs; [|discriminate].
+    destruct e; try discriminate.
+    destruct (crash_effect C s s1 w0 Hs) as [_ [_ [D1 O1]]].
+    apply (IH s1 s' w Hc Hr).
+    destruct (Nat.eq_dec w w0) as [E|E]; [subst; exact D1 | rewrite (O1 w E); exact Hd].
+Qed.
+
+(* a trace that consists of kills only changes no result and no lock; every killed worker is dead and
+   every other worker is exactly as it was *)
+Theorem crash_storm_effect : forall (V : Type) (C : cfg V) (tr : list (ev V)) (s s' : st V),
+  forallb is_crash tr = true -> run C s tr = Some s' ->
+  results s' = results s /\ locks s' = locks s /\
+  (forall w, crashed_in tr w -> w_pc (ws s' w) = PDead) /\
+  (forall w, ~ crashed_in tr w -> ws s' w = ws s w).
+Proof.
+  intros V C tr. induction tr as [|e tr IH]; intros s s' Hc Hr.
+  - simpl in Hr. inversion Hr; subst. repeat split; auto. intros w [].
+  - assert (Hc0 := Hc). assert (Hr0 := Hr). simpl in Hc, Hr.
+    apply andb_true_iff in Hc. destruct Hc as [He Hc].
+    destruct (step C s e) as [s1|] eqn:Hs; [|discriminate].
+    destruct e; try discriminate.
+    destruct (crash_effect C s s1 w Hs) as [R1 [L1 [D1 O1]]].
+    destruct (IH s1 s' Hc Hr) as [R2 [L2 [D2 O2]]].
+    split; [congruence|]. split; [congruence|]. split.
+    + intros w0 [Hw|Hw].
+      * inversion Hw; subst w0. exact (crash_storm_dead_stays V C tr s1 s' w Hc Hr D1).
+      * apply D2. exact Hw.
+    + intros w0 Hn. rewrite O2 by (intro Hi; apply Hn; right; exact Hi).
+      apply O1. intro E. apply Hn. left. now subst.
+Qed.
+
+(* ... and if every lock holder is among the killed (or was dead already), the operator's
+   `cleanup --locks-only` is possible right afterwards, frees every lock, and the store still holds
+   exactly the results it held before the first kill *)
+Theorem crash_storm_then_cleanup : forall (V : Type) (C : cfg V), framed C ->
+  forall r0 tr0 s tr s1, reach C r0 tr0 s ->
+  forallb is_crash tr = true -> run C s tr = Some s1 ->
+  (forall t w, locks s t = LHeld w -> crashed_in tr w \/ live (w_pc (ws s w)) = false) ->
+  exists s2, step C s1 ERemoveLocks = Some s2 /\ reach C r0 (tr0 ++ tr ++ [ERemoveLocks]) s2 /\
+             results s2 = results s /\ (forall t, locks s2 t = LFree).
+Proof.
+  intros V C HF r0 tr0 s tr s1 R Hc Hr Hh.
+  destruct (crash_storm_effect V C tr s s1 Hc Hr) as [R1 [L1 [D1 O1]]].
+  assert (R1' : reach C r0 (tr0 ++ tr) s1) by (eapply reach_app; eauto).
+  assert (I1 : Inv C s1) by (eapply reach_Inv; eauto).
+  destruct (remove_locks_effect C s1 I1) as [s2 [S2 [R2 [L2 W2]]]].
+  - intros t w Hl. rewrite L1 in Hl. destruct (Hh t w Hl) as [Hk|Hd].
+    + rewrite (D1 w Hk). reflexivity.
+    + assert (Hn : ~ crashed_in tr w \/ crashed_in tr w).
+      { clear -Hc Hr Hd. revert s Hr Hd. induction tr as [|e tr IH]; intros s Hr Hd; [left; intros []|].
+        simpl in Hc, Hr. apply andb_true_iff in Hc. destruct Hc as [He Hc].
+        destruct (step C s e) as [sx|] eqn:Hs; [|discriminate]. destruct e; try discriminate.
+        destruct (Nat.eq_dec w w0) as [E|E]; [right; left; now subst|].
+        destruct (crash_effect C s sx w0 Hs) as [_ [_ [_ O]]].
+        destruct (IH Hc sx Hr) as [A|A]; [rewrite (O w E); exact Hd | left | right; right; exact A].
+        intros [X|X]; [inversion X; congruence | exact (A X)]. }
+      destruct Hn as [Hn|Hk]; [rewrite (O1 w Hn); exact Hd | rewrite (D1 w Hk); reflexivity].
+  - exists s2. split; [exact S2|]. split.
+    + rewrite app_assoc. eapply reach_app; [exact R1'|]. simpl. rewrite S2. reflexivity.
+    + split; [congruence | exact L2].
+Qed.
